@@ -10,9 +10,37 @@ impl Time {
     pub fn now() -> (r: Time) { unimplemented!() }
 }
 #[verifier::external_body] pub struct Metrics { _opaque: () }
+impl Default for Metrics {
+    #[verifier::external_body]
+    fn default() -> Metrics { unimplemented!() }
+}
+#[verifier::external_body] pub struct Duration { _opaque: () }
+#[verifier::external_body] pub struct SystemTime { _opaque: () }
+impl Time {
+    #[verifier::external_body]
+    pub fn timestamp(&self) -> (r: i64) { unimplemented!() }
+    #[verifier::external_body]
+    pub fn utc(year: i32, month: u32, day: u32, hour: u32, min: u32, sec: u32) -> (r: Time) { unimplemented!() }
+}
 #[verifier::external_body] pub struct IoError { _opaque: () }
 #[verifier::external_body] pub struct Path { _opaque: () }
 pub struct PathBuf { pub p: Path }
+impl PathBuf {
+    #[verifier::external_body]
+    pub fn join(&self, name: &str) -> (r: PathBuf) { unimplemented!() }
+    #[verifier::external_body]
+    pub fn as_path(&self) -> (r: &Path) ensures *r == self.p { unimplemented!() }
+}
+impl Clone for PathBuf {
+    #[verifier::external_body]
+    fn clone(&self) -> (r: PathBuf) ensures r == *self { unimplemented!() }
+}
+impl Path {
+    #[verifier::external_body]
+    pub fn exists(&self) -> (r: bool) { unimplemented!() }
+    #[verifier::external_body]
+    pub fn join(&self, name: &str) -> (r: PathBuf) { unimplemented!() }
+}
 impl std::ops::Deref for PathBuf {
     type Target = Path;
     #[verifier::external_body]
@@ -28,6 +56,9 @@ impl ParseError {
     pub fn format(err: FmtOpaque) -> (r: ParseError) ensures !r.is_fatal_spec() { unimplemented!() }
     #[verifier::external_body]
     pub fn is_fatal(&self) -> (r: bool) ensures r == self.is_fatal_spec() { unimplemented!() }
+    // an unexpected EOF is never fatal
+    #[verifier::external_body]
+    pub fn is_eof(&self) -> (r: bool) ensures r ==> !self.is_fatal_spec() { unimplemented!() }
 }
 #[verifier::external_body] pub struct FmtOpaque { _opaque: () }
 #[verifier::external_body]
@@ -38,12 +69,12 @@ pub trait Encodable { spec fn enc(&self) -> Seq<u8>; }
 impl Encodable for u8 { open spec fn enc(&self) -> Seq<u8> { seq![*self] } }
 pub uninterp spec fn enc_time(t: Time) -> Seq<u8>;
 impl Encodable for Time { open spec fn enc(&self) -> Seq<u8> { enc_time(*self) } }
-// A timestamp is 8 octets (i64, big endian) and determines the time.
+// A timestamp is 8 octets (i64 seconds, big endian). NOT injective: Time has sub-second
+// precision (Time::now()), the encoding keeps whole seconds only.
 #[verifier::external_body]
 pub proof fn axiom_enc_time()
     ensures
         forall|t: Time| (#[trigger] enc_time(t)).len() == 8,
-        forall|a: Time, b: Time| #[trigger] enc_time(a) == #[trigger] enc_time(b) ==> a == b,
 { unimplemented!() }
 
 // ---- readers and writers; crash steps ------------------------------------------------
@@ -135,3 +166,123 @@ pub fn fatal_create_file(path: &Path) -> (r: Result<File, Failed>)
     requires status_state(Seq::<u8>::empty()),
     ensures r matches Ok(f) ==> f.content() == Seq::<u8>::empty() && f.pos() == 0,
 { unimplemented!() }
+
+// ---- further primitives of utils::fatal / std::fs on status.bin (same step discipline) --------
+// An in-memory buffer: every state of it is fine.
+impl IoWrite for Vec<u8> {
+    open spec fn written(&self) -> Seq<u8> { self@ }
+    open spec fn state_ok(&self, bytes: Seq<u8>) -> bool { true }
+}
+// fs::write = create-or-truncate followed by write_all: the file may be left empty or with
+// any prefix of the contents.
+#[verifier::external_body]
+pub fn fatal_write_file(path: &Path, contents: &[u8]) -> (r: Result<(), Failed>)
+    requires forall|n: int| 0 <= n <= contents@.len() ==> status_state(#[trigger] contents@.subrange(0, n)),
+{ unimplemented!() }
+#[verifier::external_body]
+pub fn fs_write(path: &Path, contents: &[u8]) -> (r: Result<(), IoError>)
+    requires forall|n: int| 0 <= n <= contents@.len() ==> status_state(#[trigger] contents@.subrange(0, n)),
+{ unimplemented!() }
+// Renaming some other file over status.bin: its content must be a status_state.
+pub uninterp spec fn file_at(p: Path) -> Seq<u8>;
+#[verifier::external_body]
+pub fn fatal_rename(source: &Path, target: &Path) -> (r: Result<(), Failed>)
+    requires status_state(file_at(*source)),
+{ unimplemented!() }
+#[verifier::external_body]
+pub fn fs_rename(source: &Path, target: &Path) -> (r: Result<(), IoError>)
+    requires status_state(file_at(*source)),
+{ unimplemented!() }
+// Removing status.bin leaves "no file", which Store::status reads as Ok(None).
+#[verifier::external_body]
+pub fn fatal_remove_file(path: &Path) -> (r: Result<(), Failed>) { unimplemented!() }
+#[verifier::external_body]
+pub fn fs_remove_file(path: &Path) -> (r: Result<(), IoError>) { unimplemented!() }
+#[verifier::external_body]
+pub fn fatal_open_file(path: &Path) -> (r: Result<File, Failed>)
+    ensures
+        r matches Ok(f) ==> f.pos() == 0 && disk(*path) == Some(f.content()) && status_state(f.content()),
+{ unimplemented!() }
+impl File {
+    #[verifier::external_body]
+    pub fn sync_all(&self) -> (r: Result<(), IoError>) { unimplemented!() }
+    #[verifier::external_body]
+    pub fn flush(&mut self) -> (r: Result<(), IoError>)
+        ensures final(self).content() == old(self).content(), final(self).pos() == old(self).pos(),
+    { unimplemented!() }
+    // one write_all on the status file: ONE CRASH STEP
+    #[verifier::external_body]
+    pub fn write_all(&mut self, buf: &[u8]) -> (r: Result<(), IoError>)
+        requires forall|n: int| 0 <= n <= buf@.len() ==> status_state(old(self).content() + #[trigger] buf@.subrange(0, n)),
+        ensures appended(old(self).content(), final(self).content(), buf@, r is Ok),
+    { unimplemented!() }
+}
+pub assume_specification<T: core::marker::Destruct> [std::mem::drop] (_0: T);
+// ---- std functions without a vstd specification (ASSUMED: their std definitions).
+// Declared so that a refactoring that starts using one of them is verified, not rejected.
+pub assume_specification<T: Ord + core::marker::Destruct> [std::cmp::min] (a: T, b: T) -> (r: T)
+    ensures <T as vstd::std_specs::cmp::OrdSpec>::obeys_cmp_spec() ==> r == (if vstd::std_specs::cmp::OrdSpec::cmp_spec(&b, &a) == std::cmp::Ordering::Less { b } else { a }),
+;
+pub assume_specification<T: Ord + core::marker::Destruct> [std::cmp::max] (a: T, b: T) -> (r: T)
+    ensures <T as vstd::std_specs::cmp::OrdSpec>::obeys_cmp_spec() ==> r == (if vstd::std_specs::cmp::OrdSpec::cmp_spec(&b, &a) == std::cmp::Ordering::Less { a } else { b }),
+;
+pub assume_specification [std::cmp::Ordering::is_lt] (o: std::cmp::Ordering) -> (r: bool)
+    ensures r == (o == std::cmp::Ordering::Less);
+pub assume_specification [std::cmp::Ordering::is_gt] (o: std::cmp::Ordering) -> (r: bool)
+    ensures r == (o == std::cmp::Ordering::Greater);
+pub assume_specification [std::cmp::Ordering::is_le] (o: std::cmp::Ordering) -> (r: bool)
+    ensures r == (o != std::cmp::Ordering::Greater);
+pub assume_specification [std::cmp::Ordering::is_ge] (o: std::cmp::Ordering) -> (r: bool)
+    ensures r == (o != std::cmp::Ordering::Less);
+pub assume_specification<T: core::marker::Destruct> [bool::then_some] (b: bool, t: T) -> (r: Option<T>)
+    ensures r == (if b { Some(t) } else { None::<T> });
+pub assume_specification<T: core::marker::Destruct> [std::option::Option::<T>::xor] (a: Option<T>, b: Option<T>) -> (r: Option<T>)
+    ensures r == (match (a, b) { (Some(x), None) => Some(x), (None, Some(y)) => Some(y), _ => None::<T> });
+pub assume_specification<'a, T: Copy> [std::option::Option::<&T>::copied] (o: Option<&'a T>) -> (r: Option<T>)
+    ensures r == (match o { Some(x) => Some(*x), None => None::<T> });
+pub assume_specification<T: core::marker::Destruct> [std::option::Option::<T>::or] (a: Option<T>, b: Option<T>) -> (r: Option<T>)
+    ensures r == (if a is Some { a } else { b });
+pub assume_specification<T: core::marker::Destruct, U: core::marker::Destruct> [std::option::Option::<T>::and] (a: Option<T>, b: Option<U>) -> (r: Option<U>)
+    ensures r == (if a is Some { b } else { None::<U> });
+pub assume_specification<T: core::marker::Destruct, U: core::marker::Destruct> [std::option::Option::<T>::zip] (a: Option<T>, b: Option<U>) -> (r: Option<(T, U)>)
+    ensures r == (match (a, b) { (Some(x), Some(y)) => Some((x, y)), _ => None::<(T, U)> });
+pub assume_specification<T, F: FnOnce(T) -> bool + core::marker::Destruct> [std::option::Option::<T>::is_some_and] (o: Option<T>, f: F) -> (r: bool)
+    requires o matches Some(x) ==> f.requires((x,)),
+    ensures match o { Some(x) => f.ensures((x,), r), None => !r };
+pub assume_specification<T, F: FnOnce(T) -> bool + core::marker::Destruct> [std::option::Option::<T>::is_none_or] (o: Option<T>, f: F) -> (r: bool)
+    requires o matches Some(x) ==> f.requires((x,)),
+    ensures match o { Some(x) => f.ensures((x,), r), None => r };
+pub assume_specification<T: core::marker::Destruct, P: FnOnce(&T) -> bool + core::marker::Destruct> [std::option::Option::<T>::filter] (o: Option<T>, p: P) -> (r: Option<T>)
+    requires o matches Some(x) ==> p.requires((&x,)),
+    ensures match o { Some(x) => (r == Some(x) && p.ensures((&x,), true)) || (r is None && p.ensures((&x,), false)), None => r is None };
+pub assume_specification<T: core::marker::Destruct, F: FnOnce() -> Option<T> + core::marker::Destruct> [std::option::Option::<T>::or_else] (o: Option<T>, f: F) -> (r: Option<T>)
+    requires o is None ==> f.requires(()),
+    ensures match o { Some(x) => r == o, None => f.ensures((), r) };
+pub assume_specification<T, U: core::marker::Destruct, F: FnOnce(T) -> U + core::marker::Destruct> [std::option::Option::<T>::map_or] (o: Option<T>, d: U, f: F) -> (r: U)
+    requires o matches Some(x) ==> f.requires((x,)),
+    ensures match o { Some(x) => f.ensures((x,), r), None => r == d };
+pub assume_specification<T, U, D: FnOnce() -> U + core::marker::Destruct, F: FnOnce(T) -> U + core::marker::Destruct> [std::option::Option::<T>::map_or_else] (o: Option<T>, d: D, f: F) -> (r: U)
+    requires o matches Some(x) ==> f.requires((x,)), o is None ==> d.requires(()),
+    ensures match o { Some(x) => f.ensures((x,), r), None => d.ensures((), r) };
+pub assume_specification<T: core::marker::Destruct, E: core::marker::Destruct> [std::result::Result::<T, E>::unwrap_or] (x: Result<T, E>, d: T) -> (r: T)
+    ensures r == (match x { Ok(v) => v, Err(_) => d });
+pub assume_specification<T, E: core::marker::Destruct, F: core::marker::Destruct> [std::result::Result::<T, E>::or] (a: Result<T, E>, b: Result<T, F>) -> (r: Result<T, F>)
+    ensures match a { Ok(v) => r == Ok::<T, F>(v), Err(_) => r == b };
+pub assume_specification<T, E, U, F: FnOnce(T) -> Result<U, E> + core::marker::Destruct> [std::result::Result::<T, E>::and_then] (x: Result<T, E>, f: F) -> (r: Result<U, E>)
+    requires x matches Ok(v) ==> f.requires((v,)),
+    ensures match x { Ok(v) => f.ensures((v,), r), Err(e) => r == Err::<U, E>(e) };
+pub assume_specification<T, E: core::marker::Destruct, F: FnOnce(T) -> bool + core::marker::Destruct> [std::result::Result::<T, E>::is_ok_and] (x: Result<T, E>, f: F) -> (r: bool)
+    requires x matches Ok(v) ==> f.requires((v,)),
+    ensures match x { Ok(v) => f.ensures((v,), r), Err(_) => !r };
+pub assume_specification<T, E, F: FnOnce(E) -> T + core::marker::Destruct> [std::result::Result::<T, E>::unwrap_or_else] (x: Result<T, E>, f: F) -> (r: T)
+    requires x matches Err(e) ==> f.requires((e,)),
+    ensures match x { Ok(v) => r == v, Err(e) => f.ensures((e,), r) };
+pub assume_specification<T> [std::mem::replace] (dest: &mut T, src: T) -> (r: T)
+    ensures r == *old(dest), *final(dest) == src;
+pub assume_specification<T: Default + core::marker::Destruct, E: core::marker::Destruct> [std::result::Result::<T, E>::unwrap_or_default] (x: Result<T, E>) -> (r: T)
+    ensures x matches Ok(v) ==> r == v;
+pub assume_specification<T, E, U: core::marker::Destruct, F: FnOnce(T) -> U + core::marker::Destruct> [std::result::Result::<T, E>::map_or] (x: Result<T, E>, d: U, f: F) -> (r: U)
+    requires x matches Ok(v) ==> f.requires((v,)),
+    ensures match x { Ok(v) => f.ensures((v,), r), Err(_) => r == d };
+pub assume_specification [<std::cmp::Ordering as PartialEq>::eq] (a: &std::cmp::Ordering, b: &std::cmp::Ordering) -> (r: bool)
+    ensures r == (*a == *b);
